@@ -276,7 +276,8 @@ func (w *world) step(o op) (string, string) {
 		}()
 		select {
 		case <-done:
-		case <-time.After(20 * time.Second):
+		case <-time.After(10 * time.Second):
+			aborted = true // a blocked fetch holds the queue locker for ever: nothing more can be learnt from this process
 			return "F 0 0 - -", "BLOCKED"
 		}
 		r := "none"
@@ -317,6 +318,9 @@ func (w *world) step(o op) (string, string) {
 		return fmt.Sprintf("F %d %d %s", now, thrNS, hint), obs
 	}
 }
+
+// aborted is set when a fetch step blocked; the generators stop at the next sequence boundary.
+var aborted bool
 
 type emitter struct {
 	w   *bufio.Writer
@@ -550,7 +554,7 @@ func (w *world) randomOp(r *rand.Rand, withFetch bool, base int64) op {
 }
 
 func runRandom(e *emitter, st *stats, r *rand.Rand, nseq, depth int, withFetch bool, variants []string, only int) {
-	for n := 0; n < nseq; n++ {
+	for n := 0; n < nseq && !aborted; n++ {
 		seed := r.Int63()
 		if only >= 0 && only != e.seq {
 			e.seq++
@@ -577,12 +581,21 @@ func runRandom(e *emitter, st *stats, r *rand.Rand, nseq, depth int, withFetch b
 				st.calls++
 				if ob == "BLOCKED" {
 					st.blocked++
+					lines = append(lines, c+"\t"+ob)
+					break
 				}
 				lines = append(lines, c+"\t"+ob+" | "+registry(w.scheds[0]))
 				if withFetch && quartz.NowNano()-w.born > stallNS {
 					stalled = true
 					break
 				}
+			}
+			if aborted {
+				for _, l := range lines {
+					fmt.Fprintln(e.w, l)
+				}
+				st.sequences++
+				return
 			}
 			w.close()
 			st.absorb(w)
@@ -651,6 +664,9 @@ func runDirected(e *emitter, st *stats, only int) {
 			w.opForeignRemove("a", "g"), f, f1, w.opForeignClear(), f}
 	}})
 	for i, s := range scenarios {
+		if aborted {
+			return
+		}
 		if only >= 0 && only != e.seq {
 			e.seq++
 			continue
@@ -675,8 +691,14 @@ func runDirected(e *emitter, st *stats, only int) {
 			st.calls++
 			if ob == "BLOCKED" {
 				st.blocked++
+				fmt.Fprintf(e.w, "%s\t%s\n", c, ob)
+				break
 			}
 			fmt.Fprintf(e.w, "%s\t%s | %s\n", c, ob, registry(w.scheds[0]))
+		}
+		if aborted {
+			st.sequences++
+			return
 		}
 		w.close()
 		st.absorb(w)
